@@ -8,11 +8,11 @@ ID = 'C04'
 LEVEL = 'proof'
 CLUSTER = 'B'
 GEN_UNITS = ['Consts']
-RULE = ('Histories of 1-12 modifications (update on a selection, update_xyz, update_column with / without index, add_column, '
+RULE = ('Histories of 1-12 modifications (update on a selection, update_xyz, update_column with / without index and with fewer / more values than rows (zip pairing), add_column, '
         '_fix_chainID) on tables of 0-30 atoms; after EVERY step get("*") and get_colnames() of the real object are compared with '
         'the state of the Lean model (Model.step) and of the reference list-of-records model (Spec.step). Value containers: list '
         'rows, tuple rows, float64 / float32 / int64 / int32 ndarrays, NumPy scalars, NumPy str arrays. About a quarter of the '
-        'steps are malformed (row count / column count mismatch, unknown attribute or condition name, unknown table): they must '
+        'steps are malformed (row count / column count mismatch, ragged value rows, unknown attribute or condition name, unknown table): they must '
         'raise and leave the state as it was. A history is non-trivial when some step changed the table and some step was rejected or '
         'a later step read cells written earlier.')
 ASSUMPTIONS = ['sqlite3 binds Python int / float / str as the values they are and stores them by column affinity as Model.storeVal says '
@@ -119,7 +119,7 @@ def gen_history(rng, n, nops):
             nrow, ncol, kind = len(sel), len(cols), 'ok'
             colstr = ','.join(cols)
             if malformed:
-                kind = rng.choice(['rows+1', 'rows-1', 'cols+1', 'cols-1', 'badcol', 'badkey', 'badtable', 'padcol'])
+                kind = rng.choice(['rows+1', 'rows-1', 'cols+1', 'cols-1', 'badcol', 'badkey', 'badtable', 'padcol', 'ragged', 'ragged'])
                 if kind == 'rows+1': nrow += 1
                 elif kind == 'rows-1': nrow = max(0, nrow - 1) if nrow > 1 else nrow + 2
                 elif kind == 'cols+1': ncol += 1
@@ -130,7 +130,14 @@ def gen_history(rng, n, nops):
             if nrow == 0:
                 nrow = 1 if malformed else 0
             block = [[new_value(rng, cols[j % len(cols)], edecl.get(cols[j % len(cols)])) for j in range(ncol)] for _ in range(nrow)]
-            carrier = rng.choice([c for c in CARRIERS if carrier_ok(c, block)])
+            if kind == 'ragged':
+                if len(block) < 2:
+                    block = block + [list(block[0])] if block else [[0.0] * ncol, [0.0] * ncol]
+                j = rng.randrange(1, len(block))               # a later row of the wrong length (the first one is what the old code looked at)
+                block[j] = block[j][:-1] if (rng.random() < 0.5 and len(block[j]) > 0) else block[j] + [block[j][-1] if block[j] else 0.0]
+                if rng.random() < 0.3:
+                    block[0], block[j] = block[j], block[0]
+            carrier = rng.choice([c for c in (['list', 'tuple', 'npscalar'] if kind == 'ragged' else CARRIERS) if carrier_ok(c, block)])
             op = {'name': 'update', 'columns': colstr, 'values': [jrow(r) for r in block], 'tn': 'nope' if kind == 'badtable' else rng.choice(['ATOM', 'atom']),
                   'kw': jkw(kws), 'carrier': carrier, 'kind': kind}
             if kind == 'ok' and block:
@@ -161,7 +168,12 @@ def gen_history(rng, n, nops):
                 idx, m = None, n
             else:
                 idx = rng.sample(range(n), rng.randrange(0, n + 1))
+                if idx and rng.random() < 0.2:
+                    idx[rng.randrange(len(idx))] = rng.choice([n, n + 3, -1])     # not a position: addresses nothing
                 m = len(idx)
+            if rng.random() < 0.3:
+                m = max(0, m + rng.choice([-2, -1, 1, 2]))          # fewer / more values than rows or indices: zip pairs what there is
+                kind = 'zip-shorter-or-longer'
             vals = [new_value(rng, c, edecl.get(c)) for _ in range(m)]
             if malformed:
                 kind = rng.choice(['badcol', 'badtable'])
@@ -171,9 +183,10 @@ def gen_history(rng, n, nops):
                   'carrier': carrier, 'icarrier': icarrier, 'kind': kind}
             if idx is not None:
                 op['index'] = idx
-            if kind == 'ok':
+            if kind in ('ok', 'zip-shorter-or-longer'):
                 for v, i in zip(vals, idx if idx is not None else range(n)):
-                    trows[i][STD.index(c) if c in STD else 14 + extras.index(c)] = v
+                    if 0 <= i < n:
+                        trows[i][STD.index(c) if c in STD else 14 + extras.index(c)] = v
         elif u < 0.93:
             name = rng.choice(['foo', 'bar', 'score', 'idx', 'Tag'])
             ty, v = rng.choice([('FLOAT', 0), ('FLOAT', 1.5), ('INT', 5), ('REAL', 5), ('REAL', -2.25), ('TEXT', 'positive'), ('str', 'positive'),
@@ -337,24 +350,13 @@ def B_hash(c):
     return vlib.case_hash({'db': c['db'], 'ops': c['ops']})
 
 
-def candidate_findings():
-    """behaviour that contradicts the last sentence of the property on inputs the property arguably covers;
-    reported in the evidence, not (yet) registered as known findings -- see the cluster report"""
-    res = []
+def outside_notes():
+    """behaviour outside the property's quantifiers, kept out of the Spec comparison (listed in the cluster report)"""
     rows = [[i + 1, 'CA', '', 'ALA', 'A', i, '', float(i), 0.0, 0.0, 1.0, 0.0, 'C', 0] for i in range(4)]
     db = build(rows)
-    r = call(lambda: db.update('x,y', [[7.0, 8.0], [3.0]], rowID=[0, 1]))
-    res.append({'what': 'update("x,y", [[7,8],[3]], rowID=[0,1]) (ragged value rows) raises only after row 0 was modified',
-                'still_present': is_err(r) and db.get('x', rowID=[0]) == [7.0], 'raised': r})
-    db = build(rows)
-    r = call(lambda: db.update_column('x', [9.0, 8.0]))
-    res.append({'what': 'update_column("x", <2 values>) on a 4-atom table does not raise (first 2 rows updated silently); same for values longer than index',
-                'still_present': r is None and db.get('x') == [9.0, 8.0, 2.0, 3.0]})
-    db = build(rows)
     r = call(lambda: db.update('rowID', [[7]], rowID=[0]))
-    res.append({'what': 'update("rowID", [[7]], rowID=[0]) renumbers the row (rowIDs are no longer the positions 0..n-1)',
-                'still_present': r is None and db.get('rowID') == [1, 2, 3, 6]})
-    return res
+    return [{'what': 'update("rowID", [[7]], rowID=[0]) is accepted and renumbers the row (rowID is a position, not an attribute to update)',
+             'observed': r is None and db.get('rowID') == [1, 2, 3, 6]}]
 
 
 def distribution(recs):
@@ -371,4 +373,4 @@ def distribution(recs):
             if 'carrier' in o:
                 carriers[o['carrier']] = carriers.get(o['carrier'], 0) + 1
     return {'history_lengths': nops, 'table_sizes': sizes, 'steps_by_kind': dict(sorted(kinds.items())), 'step_outcomes': outs,
-            'value_carriers': carriers, 'candidate_findings': candidate_findings()}
+            'value_carriers': carriers, 'outside_the_quantifiers': outside_notes()}
